@@ -39,6 +39,73 @@ func ImplBuild(impl string, v Val) (datamodel.Node, error) {
 		return Build(KindProto(v.K), v)
 	case "refnode":
 		return Node(v), nil
+	case "basic-newuint":
+		// basicnode, with every non-negative integer held by the uint-backed node (basicnode.NewUint)
+		return buildNewUint(v)
 	}
 	panic("harness: unknown impl " + impl)
+}
+
+func buildNewUint(v Val) (datamodel.Node, error) {
+	nb := basicnode.Prototype.Any.NewBuilder()
+	if err := assignNewUint(nb, v); err != nil {
+		return nil, err
+	}
+	return nb.Build(), nil
+}
+
+func assignNewUint(na datamodel.NodeAssembler, v Val) error {
+	switch v.K {
+	case KInt:
+		if v.I >= 0 {
+			return na.AssignNode(basicnode.NewUint(uint64(v.I)))
+		}
+	case KUint:
+		return na.AssignNode(basicnode.NewUint(v.U))
+	case KList:
+		la, err := na.BeginList(int64(len(v.L)))
+		if err != nil {
+			return err
+		}
+		for _, c := range v.L {
+			if err := assignNewUint(la.AssembleValue(), c); err != nil {
+				return err
+			}
+		}
+		return la.Finish()
+	case KMap:
+		ma, err := na.BeginMap(int64(len(v.M)))
+		if err != nil {
+			return err
+		}
+		for _, e := range v.M {
+			va, err := ma.AssembleEntry(e.K)
+			if err != nil {
+				return err
+			}
+			if err := assignNewUint(va, e.V); err != nil {
+				return err
+			}
+		}
+		return ma.Finish()
+	}
+	return Assign(na, v)
+}
+
+// HasNonNegInt: v holds an integer a uint-backed node can carry.
+func HasNonNegInt(v Val) bool {
+	if v.K == KInt && v.I >= 0 || v.K == KUint {
+		return true
+	}
+	for _, c := range v.L {
+		if HasNonNegInt(c) {
+			return true
+		}
+	}
+	for _, e := range v.M {
+		if HasNonNegInt(e.V) {
+			return true
+		}
+	}
+	return false
 }
